@@ -21,7 +21,10 @@ EntryPoints == {"json_object", "json_array_split", "json_array_i128", "json_arra
                 \* every width of the typed array readers, and the public parse functions that are reachable only through others in the server
                 "json_array_i8", "json_array_i16", "json_array_i32", "json_array_i64", "json_array_u16", "json_array_u32", "json_array_u64",
                 "json_array_u128", "json_array_f32", "json_property_parse", "url_parse", "url_parse_query", "cli_parse",
-                "range_multipart_body", "range_in_content_range", "base64_decode_sequence"}
+                "range_multipart_body", "range_in_content_range", "base64_decode_sequence",
+                \* the remaining public readers: the legacy response reader, the line-level readers, the request-target accessors
+                "response_parse_legacy", "status_line_legacy", "request_line", "request_header_line", "header_parse_header",
+                "request_target_path", "request_target_query", "percent_decode", "mime_detect"}
 
 ByteClasses == {"nul", "del", "x80", "xc3", "xff", "quote", "backslash", "lbracket", "lbrace", "rbracket", "rbrace", "comma", "colon",
                 "minus", "e", "dot", "cr", "lf", "space", "percent", "equals", "slash", "digit9", "letter",
